@@ -15,6 +15,6 @@ import (
 
 func Spec_parseFuncParams(fun FunctionBase, parsedProps *FunctionDefinition) FunctionParams {
 	funParams := fun.BlankParams()
-	utils.DecodeToStruct(parsedProps.Params, funParams)
+	utils.Spec_DecodeToStruct(parsedProps.Params, funParams)
 	return funParams
 }
